@@ -39,19 +39,57 @@ def _spacing(rng: random.Random) -> float:
     return math.ldexp(1 + rng.randrange(8) / 8.0, rng.randrange(-3, 4))
 
 
+PLACEMENTS = ["origin", "centred", "positive", "negative", "mixed"]
+
+
+def place_box(rng: random.Random, ext: list[float]) -> tuple[str, list[float]]:
+    """lower corner of a box with the given extents: at the origin, centred, shifted to positive coordinates, entirely
+    negative, or mixed per axis (dyadic offsets: stretching by powers of two stays exact)"""
+    d = len(ext)
+    place = rng.choice(PLACEMENTS)
+    shift = [math.ldexp(rng.randrange(1, 33), -2) for _ in range(d)]
+    origin = {"origin": [0.0] * d,
+              "centred": [-e / 2 for e in ext],
+              "positive": shift,
+              "negative": [-e - s_ for e, s_ in zip(ext, shift)],
+              "mixed": [rng.choice([0.0, -e / 2, s_, -e - s_, -s_]) for e, s_ in zip(ext, shift)]}[place]
+    return place, origin
+
+
+def periodic_mask(rng: random.Random, d: int) -> list[bool]:
+    """70 % fully periodic (what the property text quantifies over); otherwise any mask (the library only warns)"""
+    if rng.random() < 0.7:
+        return [True] * d
+    return [rng.random() < 0.5 for _ in range(d)]
+
+
 def gen_case(rng: random.Random, dim: int | None = None, kind: str | None = None, max_cells: int = 4096,
-             min_n: int = 2, big: bool = False) -> dict:
+             min_n: int = 2, big: bool = False, dtype: str | None = None, constant: bool = False) -> dict:
     d = dim or rng.choice([1, 1, 2, 2, 3])
     cap = ({1: 256, 2: 48, 3: 16} if big else {1: 40, 2: 14, 3: 8})[d]
     shape = [rng.randrange(min_n, cap + 1) for _ in range(d)]
     while int(np.prod(shape)) > max_cells:
         shape[rng.randrange(d)] = max(min_n, shape[rng.randrange(d)] // 2)
+    # thin axes: one axis of a single cell (d >= 2; fftfreq(1) = [0]) or of two cells (only the Nyquist mode)
+    u = rng.random()
+    if min_n <= 2 and d >= 2 and u < 0.12:
+        shape[rng.randrange(d)] = 1
+    elif min_n <= 2 and u < 0.24:
+        shape[rng.randrange(d)] = 2
+    if int(np.prod(shape)) < 2:
+        shape[rng.randrange(d)] = 3
     iso = rng.random() < 0.25
     h0 = _spacing(rng)
     h = [h0 if iso else _spacing(rng) for _ in range(d)]
-    origin = [rng.choice([0.0, 0.0, math.ldexp(rng.randrange(-64, 65), -3)]) for _ in range(d)]
-    kind = kind or rng.choice(["noise", "noise", "wave", "waves", "droplets", "constant+noise"])
-    c = {"shape": shape, "h": h, "origin": origin, "kind": kind}
+    place, origin = place_box(rng, [n * hh for n, hh in zip(shape, h)])
+    periodic = periodic_mask(rng, d)
+    dt = dtype or rng.choice(["float64"] * 8 + ["float32", "int64"])
+    kind = kind or rng.choice(["noise", "noise", "wave", "waves", "droplets", "constant+noise"]
+                              + (["constant"] if constant else []))
+    c = {"shape": shape, "h": h, "origin": origin, "place": place, "periodic": periodic, "dtype": dt, "kind": kind}
+    if kind == "constant":
+        c["value"] = rng.choice([2.5, -1.0, 1e-7, 4096.0])
+        return c
     if kind in ("noise", "constant+noise"):
         c["seed"] = rng.getrandbits(32)
         c["offset"] = rng.choice([0.0, 0.5, -2.0]) if kind == "noise" else rng.choice([3.0, -7.5, 100.0])
@@ -62,7 +100,7 @@ def gen_case(rng: random.Random, dim: int | None = None, kind: str | None = None
         for _ in range(nw):
             q = [rng.randrange(-(n // 2), n // 2 + 1) for n in shape]
             if not any(q):
-                q[rng.randrange(d)] = 1
+                q[rng.choice([ax for ax, n in enumerate(shape) if n >= 2])] = 1
             c["waves"].append({"q": q, "amp": rng.choice([0.2, 1.0, 3.5]), "phase": rng.randrange(0, 64) / 10.0})
         c["offset"] = rng.choice([0.0, 0.2, -1.0])
     elif kind == "droplets":
@@ -75,11 +113,31 @@ def gen_case(rng: random.Random, dim: int | None = None, kind: str | None = None
 
 
 def build(c: dict) -> np.ndarray:
-    """the field data of a case (deterministic)"""
+    """the field data of a case (deterministic), in the case's dtype: float32 data are the rounded float64 data,
+    integer data are round(16 * data)"""
+    data = _build64(c)
+    dt = c.get("dtype", "float64")
+    if dt == "float32":
+        return data.astype(np.float32)
+    if dt == "int64":
+        return np.rint(16 * data).astype(np.int64)
+    return data
+
+
+def tols(c: dict) -> dict:
+    """tolerances of the oracles: derived for binary64 (rel 1e-9, abs 1e-12 on sf <= 1, Parseval 1e-10); for float32 data
+    the transform itself is computed in single precision (eps = 1.2e-7, error ~ eps * log2 N): factor 2e4"""
+    f = 2e4 if c.get("dtype") == "float32" else 1.0
+    return {"rel": 1e-9 * f, "abs": 1e-12 * f * 100 if f > 1 else 1e-12, "parseval": 1e-10 * f * 10 if f > 1 else 1e-10}
+
+
+def _build64(c: dict) -> np.ndarray:
     shape = tuple(c["shape"])
     d = len(shape)
     idx = np.meshgrid(*[np.arange(n) for n in shape], indexing="ij")
     kind = c["kind"]
+    if kind == "constant":
+        return np.full(shape, float(c["value"]))
     if kind in ("noise", "constant+noise"):
         g = np.random.default_rng(c["seed"])
         return c["offset"] + c["amp"] * g.standard_normal(shape)
@@ -106,19 +164,40 @@ def build(c: dict) -> np.ndarray:
     raise ValueError(kind)
 
 
-def make_grid(shape, h, origin, scale: float = 1.0):
+def make_grid(shape, h, origin, scale: float = 1.0, periodic=True):
     from pde import CartesianGrid
     return CartesianGrid([(scale * o, scale * (o + n * hh)) for n, hh, o in zip(shape, h, origin)],
-                         [int(n) for n in shape], periodic=True)
+                         [int(n) for n in shape], periodic=periodic)
 
 
 def make_field(c: dict, data: np.ndarray | None = None, scale: float = 1.0, perm=None):
+    """the field of a case (or of a variant of its data) on the case's grid, stretched / with permuted axes; the dtype of
+    `data` is kept (ScalarField would otherwise convert to float64)"""
     from pde import ScalarField
     data = build(c) if data is None else data
     shape, h, origin = c["shape"], c["h"], c["origin"]
+    periodic = c.get("periodic", [True] * len(shape))
     if perm is not None:
         shape, h, origin = [shape[p] for p in perm], [h[p] for p in perm], [origin[p] for p in perm]
-    return ScalarField(make_grid(shape, h, origin, scale), data)
+        periodic = [periodic[p] for p in perm]
+    return ScalarField(make_grid(shape, h, origin, scale, periodic), data, dtype=data.dtype)
+
+
+def count_case(ctx, c: dict):
+    """evidence histogram of the input dimensions of a generated case"""
+    shape, h = c["shape"], c["h"]
+    ctx.count("dim", len(shape))
+    ctx.count("kind", c["kind"])
+    ctx.count("parity", "".join("e" if s % 2 == 0 else "o" for s in shape))
+    ctx.count("thinnest_axis_cells", min(shape) if min(shape) <= 2 else ">=3")
+    ctx.count("cells_order", "1-d" if len(shape) == 1 else
+              ("larger first" if shape[0] > shape[-1] else "larger last" if shape[0] < shape[-1] else "equal ends"))
+    ctx.count("spacing_order", "1-d" if len(shape) == 1 else
+              ("larger first" if h[0] > h[-1] else "larger last" if h[0] < h[-1] else "equal ends"))
+    ctx.count("placement", c.get("place", "?"))
+    per = c.get("periodic", [True] * len(shape))
+    ctx.count("periodic_mask", "all" if all(per) else "none" if not any(per) else "".join("p" if p else "-" for p in per))
+    ctx.count("dtype", c.get("dtype", "float64"))
 
 
 def canon(c: dict):
